@@ -28,7 +28,11 @@ def _case(rng, farmer=None, sow_constants=False):
     farmer = farmer or rng.choice(['runner', 'runner', 'harvester', 'harvester', 'sampler'])
     to_df = farmer == 'sampler' or (farmer == 'runner' and rng.random() < 0.3)
     cases = farmer == 'sampler' or rng.random() < 0.3
-    if cases:
+    mixed = farmer != 'sampler' and not cases and rng.random() < 0.2
+    if mixed:
+        # a case list crossed with a sub-grid, sown with sow_combos(combos, cases=...) and run directly the same way
+        sw = sweeps.gen_sweep(rng, n_case_args=(1, 2), n_cases=(1, 5), n_combo_args=(1, 2), n_vals=(1, 3), max_settings=40)
+    elif cases:
         sw = sweeps.gen_sweep(rng, n_case_args=(1, 2), n_cases=(1, 8), n_combo_args=0, max_settings=40)
     else:
         sw = sweeps.gen_sweep(rng, n_combo_args=(1, 3), n_vals=(1, 4), max_settings=40)
@@ -145,7 +149,8 @@ def run_real(c, ctx):
                 crop.shuffle = c['shuffle'] or False
                 crop.sow_cases(sw['case_args'], cases_t, verbosity=0, **kw)
             else:
-                crop.sow_combos(combos, shuffle=c['shuffle'] or False, verbosity=0, **kw)
+                mkw = {'cases': sweeps.py_cases(sw, 'dict')} if sw['rows'] is not None else {}
+                crop.sow_combos(combos, shuffle=c['shuffle'] or False, verbosity=0, **kw, **mkw)
             if 'after_sow' in c['reload']:
                 crop = xyz.Crop(name='t', parent_dir=d)
             ids = list(range(1, c['B'] + 1)); random.Random(c['seed']).shuffle(ids)
@@ -179,11 +184,13 @@ def run_real(c, ctx):
             dkw = {'constants': c['sow_constants']} if c.get('sow_constants') else {}
             if c['farmer'] == 'runner':
                 if c['cases']: direct = runner2.run_cases(cases_t, fn_args=sw['case_args'], to_df=c['to_df'], verbosity=0, **dkw)
-                else: direct = runner2.run_combos(combos_sorted, to_df=c['to_df'], verbosity=0, **dkw) if c['to_df'] else runner2.run_combos(combos_sorted, verbosity=0, **dkw)
+                else:
+                    mkw = {'cases': sweeps.py_cases(sw, 'dict')} if sw['rows'] is not None else {}
+                    direct = runner2.run_combos(combos_sorted, to_df=c['to_df'], verbosity=0, **dkw, **mkw) if c['to_df'] else runner2.run_combos(combos_sorted, verbosity=0, **dkw, **mkw)
             elif c['farmer'] == 'harvester':
                 if c.get('_conflict_done'): pass
                 elif c['cases']: farmer2.harvest_cases(cases_t, verbosity=0, **opts, **dkw)
-                else: farmer2.harvest_combos(combos_sorted, verbosity=0, **opts, **dkw)
+                else: farmer2.harvest_combos(combos_sorted, verbosity=0, **opts, **dkw, **({'cases': sweeps.py_cases(sw, 'dict')} if sw['rows'] is not None else {}))
                 direct = farmer2.last_ds
             else:
                 direct = runner2.run_cases(cases_t, fn_args=sw['case_args'], to_df=True, verbosity=0, **dkw)
